@@ -35,6 +35,32 @@ def fresh(source, compress, labels, consts):
     return _cache[key]
 
 
+_modcount = [0]
+
+
+def fresh_module():
+    import importlib.util
+    env.load_asm()
+    _modcount[0] += 1
+    path = os.path.join(env.REPO, 'bronzebeard', 'asm.py')
+    spec = importlib.util.spec_from_file_location('bronzebeard_asm_history_%d' % _modcount[0], path)
+    mod = importlib.util.module_from_spec(spec)
+    spec.loader.exec_module(mod)
+    return mod
+
+
+def find_case_failure(e, depth=0):
+    if isinstance(e, env.CaseFailure):
+        return e
+    if depth > 6 or e is None:
+        return None
+    for sub in getattr(e, 'exceptions', ()) or ():
+        f = find_case_failure(sub, depth + 1)
+        if f:
+            return f
+    return find_case_failure(e.__cause__, depth + 1) or find_case_failure(e.__context__, depth + 1)
+
+
 def tables_snapshot(a):
     return (dict(a.REGISTERS), sorted(a.INSTRUCTIONS), sorted(a.KEYWORDS), sorted(a.PSEUDO_INSTRUCTIONS), sorted(a.BASE_OFFSET_INSTRUCTIONS),
             sorted(a.NUMERIC_SEQUENCE_NAMES), sorted(a.SHORTHAND_PACK_NAMES), {k: (v.func.__name__, sorted(v.keywords.items(), key=str)) for k, v in a.INSTRUCTIONS.items() if hasattr(v, 'func')})
@@ -63,7 +89,9 @@ def pool(draw):
 class History(RuleBasedStateMachine):
     def __init__(self):
         super().__init__()
-        self.a = env.load_asm()
+        # every history starts from a freshly executed copy of the module, so that state leaking out of one
+        # history cannot make the next one irreproducible (the leak itself is caught inside the history)
+        self.a = fresh_module()
         self.tables = tables_snapshot(self.a)
         self.pool = []
         self.returned = []    # (labels dict, constants dict, snapshot of both) handed back by earlier calls
@@ -156,14 +184,19 @@ class History(RuleBasedStateMachine):
                 _stats.sample({'calls': [list(k) + [ok] for k, ok in self.calls[:12]], 'first_program': self.pool[0][:200] if self.pool else None})
 
 
-def shard(n, s):
+def shard(n, s, shrink=False):
     global _stats
     res = env.Result()
     _stats = res
-    settings = env.hyp_settings(n, shrink=True, stateful_steps=30)
+    settings = env.hyp_settings(n, shrink=shrink, stateful_steps=30)
     try:
         run_state_machine_as_test(hypothesis.seed(env.derive(env.seed_value(), PROP, s))(History), settings=settings)
-    except env.CaseFailure as f:
+    except env.HarnessError:
+        raise
+    except BaseException as e:
+        f = find_case_failure(e)
+        if f is None:
+            raise
         res.fail(f.sig, f.what, f.case)
     return res
 
@@ -213,7 +246,7 @@ def _dispatch(fn, *a):
 def run(tier):
     chk = env.Check(PROP, tier)
     per = max(1, N[tier] // env.NPROC)
-    jobs = [(shard, per, s) for s in range(env.NPROC)]
+    jobs = [(shard, per, s, tier == 'thorough') for s in range(env.NPROC)]   # shrinking histories re-runs many subprocesses: thorough only
     jobs += [(cli_hashseed_job, env.derive(chk.seed, PROP, 'cli', i) % (1 << 30)) for i in range({'quick': 4, 'thorough': 64}[tier])]
     chk.merge(env.run_shards(_dispatch, jobs))
     chk.rule = ('Hypothesis RuleBasedStateMachine: a pool of 3-6 generated programs over a shared small name space (some with a planted fault, some '
